@@ -37,8 +37,10 @@ package grandpa
 //          fin v<i>            honest voter i attempts to finalise its round
 //        thr <n>               State.threshold() of n voters (alone on a line)
 // output: one token per op joined by ';', then ';safe=<0|1>' (1: all blocks finalised by honest voters lie on one chain)
-//   best: ok|nobest (the block does not descend from the voter's finalised head)   pv: pv=b<k>|skip|pv=err   pc: pc=b<k>|wait|skip|pc=err|pc=panic   bv: ok
+//   best: ok|nobest (the block does not descend from the voter's finalised head)   pv: pv=b<k>|skip|done|pv=err   pc: pc=b<k>|wait|skip|done|pc=err|pc=panic   bv: ok
 //   d: ok|eq|round|set|notvoter|notdesc|self|nomsg|err   fin: fin=b<k>|no|skip|fin=err   chg: ok
+//   done: checkRoundCompletable said that the round is over (a block was finalised in a HIGHER round - the code compares
+//         round numbers across authority sets); the voter moved to its next round
 //   pv / pc / fin of a key that is not a voter of its Service's current set: notauth
 
 import (
@@ -475,12 +477,32 @@ func (v *c22Voter) member() bool {
 	return false
 }
 
+// roundDone asks the real checkRoundCompletable (the first thing both timers of defineRoundVotes do): when it says
+// that the round is over, the ephemeral services end and the real initiateRound starts the next round.
+func (v *c22Voter) roundDone() (string, bool) {
+	done, err := v.svc.checkRoundCompletable()
+	if err != nil {
+		return "err", true
+	}
+	if !done {
+		return "", false
+	}
+	if err := v.svc.initiateRound(); err != nil {
+		return "err", true
+	}
+	v.prevoted, v.precommitted = false, false
+	return "done", true
+}
+
 func (v *c22Voter) prevote() (string, *VoteMessage) {
 	if !v.member() {
 		return "notauth", nil
 	}
 	if v.prevoted {
 		return "skip", nil
+	}
+	if res, over := v.roundDone(); over {
+		return res, nil
 	}
 	if err := v.act(determinePrevote); err != nil {
 		return "pv=err", nil
@@ -569,6 +591,9 @@ func (v *c22Voter) precommit() (string, *VoteMessage) {
 	}
 	if !v.prevoted || v.precommitted {
 		return "skip", nil
+	}
+	if res, over := v.roundDone(); over {
+		return res, nil
 	}
 	switch v.gate() {
 	case "go":
